@@ -174,6 +174,7 @@ var gateOf = map[string]string{
 	"DelLock": "lock.SetNX", "DelGet2": "rec.Get", "DelIdxGet": "idx.Get", "DelUnlock": "lock.Delete",
 	"RbLock": "lock.SetNX", "RbGet": "rec.Get", "RbIdxGet": "idx.Get", "RbList": "cl.RemoveFromList", "RbUnlock": "lock.Delete",
 	"L_idx": "idx.Get", "L_rec": "rec.Get",
+	"DelCUnlock": "lock.Delete", "L_clean": "idx.Delete", // deviation models only
 }
 
 // ---- environment doubles of the proxy ----------------------------------------------------------
@@ -562,7 +563,7 @@ type behaviour struct {
 	Ops    int      `json:"ops,omitempty"`
 }
 
-var nodeOfProc = map[string]int{"p1": 0, "p2": 1, "p3": 1, "lk": 0}
+var nodeOfProc = map[string]int{"p1": 0, "p2": 1, "p3": 1, "p4": 0, "lk": 0}
 
 type active struct {
 	name string
@@ -655,9 +656,16 @@ func drive(env *fw.Env, b fw.Behaviour) *fw.Trace {
 	cur := map[string]*active{}
 	var started []*active
 	nCalls := map[string]int{}
-	unreal := func(format string, a ...any) *fw.Trace {
-		r.s.Drain(3 * time.Second)
-		return &fw.Trace{Status: fw.Unrealisable, Note: fmt.Sprintf(format, a...)}
+	// The schedule is followed as far as the real code allows. Where the code leaves it (a process is not at
+	// the gate the model names, has extra storage operations, returns earlier / later / something else) the
+	// first such point is noted, the rest of the schedule is still followed best-effort (same processes in the
+	// same order; a call the model believes finished is run to its end as extra steps of that process) and the
+	// execution is finished and judged as fw.Diverged: it is a real execution of the real code.
+	diverged := ""
+	note := func(format string, a ...any) {
+		if diverged == "" {
+			diverged = fmt.Sprintf(format, a...)
+		}
 	}
 	probe := func() {
 		if !probes {
@@ -679,10 +687,12 @@ func drive(env *fw.Env, b fw.Behaviour) *fw.Trace {
 				if st.St == "here" {
 					// management API on the proxy node: availability check + registration in its registry
 					if !r.reg.IsSubdomainAvailable(subOf[st.N], baseDomain) {
-						return unreal("step %d: legacy create refused by the registry", i)
+						note("step %d: legacy create refused by the registry", i)
+						continue
 					}
 					if err := r.reg.Register(pm); err != nil {
-						return unreal("step %d: legacy register: %v", i, err)
+						note("step %d: legacy register: %v", i, err)
+						continue
 					}
 				}
 				r.cc.mu.Lock()
@@ -737,7 +747,10 @@ func drive(env *fw.Env, b fw.Behaviour) *fw.Trace {
 			cur[st.P] = a
 			started = append(started, a)
 			if state := r.s.Start(a.name, fn); state != sched.Parked {
-				return unreal("step %d: call %s did not reach its first storage gate (%s)", i, a.name, state)
+				note("step %d: call %s did not reach its first storage gate (%s)", i, a.name, state)
+				if state == sched.Done {
+					r.logRet(a)
+				}
 			}
 		default:
 			a := cur[st.P]
@@ -750,28 +763,40 @@ func drive(env *fw.Env, b fw.Behaviour) *fw.Trace {
 			}
 			state, at := r.s.State(a.name)
 			cls, _ := at.Info["class"].(string)
-			if state != sched.Parked || cls != want {
-				return unreal("step %d: %s is at %q (%s), model expects %s at %s", i, a.name, cls, state, st.A, want)
+			if state == sched.Done {
+				r.logRet(a)
 			}
-			if st.F {
+			if state != sched.Parked {
+				note("step %d: %s is %s, model expects %s at %s", i, a.name, state, st.A, want)
+				break
+			}
+			if cls != want {
+				note("step %d: %s is at %q, model expects %s at %s", i, a.name, cls, st.A, want)
+			} else if st.F {
 				r.arm(want)
 			}
 			ns, _ := r.s.Step(a.name)
 			r.arm("")
+			if st.R != "-" && ns == sched.Parked {
+				// the model's call returns here, the code has further storage operations (e.g. a lookup that
+				// writes, a clean-up on a refused path): they are extra steps of this call, run now
+				note("step %d: %s continues after %s (at %v), model expects it to return %s", i, a.name, st.A, atClass(r, a.name), st.R)
+				for k := 0; k < 40 && ns == sched.Parked; k++ {
+					ns, _ = r.s.Step(a.name)
+				}
+			}
 			if ns == sched.Done {
 				r.logRet(a)
 			}
 			switch {
 			case ns == sched.Blocked:
-				return unreal("step %d: %s blocked after %s", i, a.name, st.A)
+				note("step %d: %s blocked after %s", i, a.name, st.A)
 			case st.R == "-" && ns != sched.Parked:
-				return unreal("step %d: %s returned after %s, model expects it to continue", i, a.name, st.A)
-			case st.R != "-" && ns != sched.Done:
-				return unreal("step %d: %s continues after %s (at %v), model expects it to return %s", i, a.name, st.A, atClass(r, a.name), st.R)
-			case st.R != "-":
+				note("step %d: %s returned after %s, model expects it to continue", i, a.name, st.A)
+			case st.R != "-" && ns == sched.Done:
 				out, _ := r.s.Result(a.name).(res)
 				if !expectOK(a, out, st.R) {
-					return unreal("step %d: %s returned %+v after %s, model expects %s", i, a.name, out, st.A, st.R)
+					note("step %d: %s returned %+v after %s, model expects %s", i, a.name, out, st.A, st.R)
 				}
 			}
 		}
@@ -791,6 +816,9 @@ func drive(env *fw.Env, b fw.Behaviour) *fw.Trace {
 		}
 	}
 	r.log(r.finalEvent())
+	if diverged != "" {
+		return &fw.Trace{Status: fw.Diverged, Note: diverged, Events: r.events}
+	}
 	return &fw.Trace{Status: fw.Realised, Events: r.events}
 }
 
@@ -987,6 +1015,7 @@ type mcfg struct {
 	pre, guess, serial, fix         bool
 	spell                           string // "" = {"plain"}
 	nofold                          bool
+	onlyDel, onlyCre, deviate       string // "" = {}
 	lp                              string // lookup processes ("" = one)
 	emit                            bool
 	invs                            string
@@ -999,6 +1028,13 @@ func spellOf(c mcfg) string {
 		return `{"plain"}`
 	}
 	return c.spell
+}
+
+func setOf(s string) string {
+	if s == "" {
+		return "{}"
+	}
+	return s
 }
 
 func lpOf(c mcfg) string {
@@ -1015,15 +1051,15 @@ func tf(b bool) string {
 	return "FALSE"
 }
 
-const allInvs = "OneOwner RouteOK OwnerOnly Consistent Claimable NoIndexTheft"
-const excusedInvs = "OneOwnerX RouteOKX OwnerOnly Consistent Claimable NoIndexTheft"
+const allInvs = "OneOwner RouteOK OwnerOnly LockHeld OnlyHolderUnlocks LookupPure Consistent Claimable NoIndexTheft"
+const excusedInvs = "OneOwnerX RouteOKX OwnerOnly LockHeld OnlyHolderUnlocks LookupPure Consistent Claimable NoIndexTheft"
 
 func job(name string, c mcfg) fw.TLCJob {
 	return fw.TLCJob{Name: name, Module: "Domain", Cfg: "Domain.cfg", Workers: 8, Timeout: 14 * time.Minute,
 		Consts: map[string]string{"P1": c.p1, "P2": c.p2, "LP": lpOf(c), "NAMES": c.names, "MAXOPS": strconv.Itoa(c.maxOps),
 			"MAXLOOK": strconv.Itoa(c.maxLook), "KINDS": c.kinds, "PRE": tf(c.pre), "FAULTS": strconv.Itoa(c.faults), "GUESS": tf(c.guess),
 			"HANDLER": `{"p2"}`, "SEQ": tf(c.serial), "MAXLEG": strconv.Itoa(c.maxLeg), "FIX": tf(c.fix), "EMIT": tf(c.emit), "INVS": c.invs,
-			"SPELL": spellOf(c), "FOLD": tf(!c.nofold)}}
+			"SPELL": spellOf(c), "FOLD": tf(!c.nofold), "ONLYDEL": setOf(c.onlyDel), "ONLYCRE": setOf(c.onlyCre), "DEVIATE": setOf(c.deviate)}}
 }
 
 const cd = `{"Create", "Delete"}`
@@ -1048,6 +1084,20 @@ func spellCfg(fix, emit bool, ops, looks int) mcfg {
 	c := seqCfg(fix, emit, cd, ops, looks, 0, 0)
 	c.spell = allSpell
 	return c
+}
+
+// del3: three delete calls of the owner (two overlapping + a retry) and one claimant of the same name
+func del3(emit bool, looks int) mcfg {
+	return mcfg{p1: `{"p1", "p3", "p4"}`, p2: `{"p2"}`, names: `{"n1"}`, kinds: cd, maxOps: 1, maxLook: looks, pre: true, fix: true, emit: emit,
+		onlyDel: `{"p1", "p3", "p4"}`, onlyCre: `{"p2"}`}
+}
+
+// deviating: schedules of code that has one of the named deviations the present code does not have
+func deviating(c mcfg, dev string) mcfg { c.deviate = dev; return c }
+
+// claim2: two claimants of one free name, one call each
+func claim2(emit bool, looks int) mcfg {
+	return mcfg{p1: `{"p1"}`, p2: `{"p2"}`, names: `{"n1"}`, kinds: cd, maxOps: 1, maxLook: looks, fix: true, emit: emit}
 }
 
 // unrepaired: neither the DeleteMapping repair nor the case-insensitive index key
@@ -1082,6 +1132,9 @@ func main() {
 				job("gen:conc2f", with(conc2(true, true, `{"n1"}`, 1, 1), allInvs)),
 				job("gen:seq", with(seqCfg(true, true, cdu, 2, 2, 0, 1), excusedInvs)),
 				job("gen:spell", with(spellCfg(true, true, 2, 2), allInvs)),
+				job("gen:del3", with(del3(true, 1), allInvs)),
+				job("legacy:dev:conflict-unlock", deviating(del3(true, 0), `{"conflictUnlock"}`)),
+				job("legacy:dev:lazy-clean", deviating(claim2(true, 1), `{"lazyClean"}`)),
 				job("legacy:conc3", unrepaired(conc3(false, true, 1, 1, 0), "")),
 				job("legacy:seq", unrepaired(seqCfg(false, true, cd, 2, 1, 1, 0), `{"plain", "upper"}`)),
 			}
@@ -1100,7 +1153,7 @@ func main() {
 			if err := json.Unmarshal(raw, &steps); err != nil {
 				panic(err)
 			}
-			pre := !strings.Contains(src, ":seq") && !strings.Contains(src, ":spell")
+			pre := !strings.Contains(src, ":seq") && !strings.Contains(src, ":spell") && !strings.Contains(src, "lazy-clean")
 			legacy := strings.HasPrefix(src, "legacy:")
 			var out []json.RawMessage
 			for _, tier := range []string{"store", "hybrid"} {
@@ -1153,7 +1206,10 @@ func main() {
 		Rule: "one behaviour per (state, storage-step) transition of Domain.tla (create/delete/update/lookup processes of two clients, " +
 			"<=1 failing write, legacy mappings in the sequential configuration), forced through gates at the repository<->storage seam on the real " +
 			"repository, command handlers and domain proxy, over a store double and over two real hybrid.Storage nodes; an atomic lookup of every name " +
-			"after every step; plus a sequential Host-spelling sweep and seeded free-running stress; non-trivial = realised with >= 2 non-lookup calls",
+			"after every step; a dedicated three-deleters-one-claimant job (gen:del3); schedules of code with named deviations (legacy:dev:*: a Conflict " +
+			"that removes the holder's delete marker, a lookup that deletes index entries) and of the code before the repairs (legacy:*); where the real code " +
+			"leaves a schedule it is still followed best-effort, finished and judged (fw.Diverged); plus a sequential Host-spelling sweep and seeded " +
+			"free-running stress; non-trivial = realised with >= 2 non-lookup calls",
 		Assumptions: []string{
 			"the session manager, cloud control (GetPortMappingByDomain only) and the storage tiers below hybrid.Storage are doubles; tier doubles are correct maps",
 			"interleavings are forced at the granularity of the repository's storage operations; interleavings inside one hybrid.Storage operation are C14's subject",
